@@ -164,7 +164,7 @@ func Run(s *simrt.Sim, a *harness.Args, r *harness.Result) {
 			ctx := context.Background()
 			if floodDelay > 0 {
 				// start when earlier buckets are older than the reap interval
-				time.Sleep(floodDelay)
+				simrt.Sleep(floodDelay)
 				simrt.Yield("flood:woke")
 			}
 			for i := 0; i < n; i++ {
@@ -204,7 +204,7 @@ func Run(s *simrt.Sim, a *harness.Args, r *harness.Result) {
 				// a bucket table filled beyond its capacity refuses new work
 				// until the buckets are stale (documented overload
 				// behaviour); quiescence includes that interval
-				time.Sleep(2*time.Minute + time.Second)
+				simrt.Sleep(2*time.Minute + time.Second)
 				simrt.Yield("post:woke")
 			}
 			w.postCheck(ds)
@@ -230,7 +230,7 @@ func (w *world) deliver(name string, d delivery) {
 	s := w.s
 	ctx := context.Background()
 	if d.delay > 0 {
-		time.Sleep(d.delay)
+		simrt.Sleep(d.delay)
 		simrt.Yield("deliver:woke")
 	}
 	simrt.Point("deliver:"+name, "takemsg")
@@ -259,7 +259,7 @@ func (w *world) deliver(name string, d delivery) {
 		got = append(got, dst)
 	}
 	if d.hold > 0 {
-		time.Sleep(d.hold)
+		simrt.Sleep(d.hold)
 		simrt.Yield("deliver:held")
 	}
 	simrt.Point("deliver:"+name, "release")
@@ -284,7 +284,7 @@ func (w *world) refill() {
 		}
 	}
 	if max > 0 {
-		time.Sleep(max + time.Second)
+		simrt.Sleep(max + time.Second)
 		simrt.Yield("post:refilled")
 	}
 }
